@@ -411,6 +411,62 @@ def failed_obligation_keys(meta, f):
     return keys
 
 
+# Bounded stand-ins for ASSUMED callees (labelled bounded, never counted as proved): twin family,
+# the known-finding obligation id, and the committed list of case numbers known to fail.
+BOUNDED = {
+    "C05": [dict(family="listneg", obligation="list_shape/bounded-standin/listneg.list_is_empty",
+                 known_cases="contracts/known_listneg_cases.txt",
+                 what="list_is_empty / list_inhabited (assumed decider of C05): `a <: b | c` for tuple shapes with prefix <= 2 over {string, number} and an optional rest in {string, number}, against brute force over all lists of length <= 4 over three basic values")],
+}
+
+
+def run_bounded(pid, known):
+    """-> (violations, known_lines, evidence_rows, notes)"""
+    rows, viols, klines, notes = [], [], [], []
+    specs = BOUNDED.get(pid, [])
+    if not specs:
+        return viols, klines, rows, notes
+    try:
+        import twin
+    except ImportError:
+        return viols, klines, rows, ["bounded stand-ins not available (twin missing)"]
+    err = twin.build()
+    if err:
+        return viols, klines, rows, ["bounded stand-ins not run: the twin does not build against the current tree: " + err[-300:]]
+    for sp in specs:
+        rc, out, stderr = twin.run([sp["family"]])
+        for r in out:
+            if r.get("panic"):
+                viols.append(dict(id=sp["obligation"] + ":panic", kind="bounded", fn=None, clause=None, unit="twin",
+                                  message="the real code panicked during the bounded stand-in", rendered=stderr[-1500:], where={},
+                                  found=dict(family=sp["family"], fn="*", panic=True, replay_args=[sp["family"]])))
+                continue
+            failed = set(r.get("failed_cases", []))
+            kn = [k for k in known if k["obligation"] == sp["obligation"] and k["property"] == pid]
+            known_cases = set()
+            if kn:
+                kp = os.path.join(ROOT, sp["known_cases"])
+                if os.path.exists(kp):
+                    known_cases = {int(x) for x in open(kp).read().split()}
+            new = sorted(failed - known_cases)
+            still = sorted(failed & known_cases)
+            rows.append(dict(bounded=True, family=sp["family"], what=sp["what"], cases=r.get("cases"), failing=len(failed),
+                             known_failing=len(still), new_failing=len(new), known_no_longer_failing=len(known_cases - failed)))
+            if still:
+                for k in kn:
+                    klines.append((k, dict(id=sp["obligation"]), "%d of %d cases of the bounded stand-in fail (all listed in %s)" % (len(still), r.get("cases"), sp["known_cases"])))
+            if new:
+                rc2, out2, _ = twin.run([sp["family"], "--case", str(new[0])])
+                first = (out2[0].get("first") if out2 else None) or {}
+                viols.append(dict(id=sp["obligation"], kind="bounded", fn=r.get("fn"), clause=None, unit="twin",
+                                  message="bounded stand-in for an assumed callee: %d case(s) fail that are not known findings (first: case %d)" % (len(new), new[0]),
+                                  rendered="input: %s\nobserved: %s\nrequired: %s" % (first.get("input"), first.get("observed"), first.get("required")), where={},
+                                  found=dict(family=sp["family"], fn=r.get("fn"), case=new[0], input=first.get("input"), observed=first.get("observed"),
+                                             required=first.get("required"), new_failing_cases=new[:50],
+                                             replay_args=[sp["family"], "--case", str(new[0])])))
+    return viols, klines, rows, notes
+
+
 def bounded_standin(pid, unit):
     """twin search for a unit Verus cannot process; -> pseudo-failure dict with the counterexample, or None"""
     try:
@@ -572,6 +628,13 @@ def check(pid, tier, seed, rebaseline=False):
         if not hit and not undecided:
             undecided.append("%s: canary `ensures false` on %s was NOT rejected (status %s): contracts are vacuous" % (u, cn, rc_["status"]))
     pool.shutdown()
+    bounded_rows = []
+    if pid in BOUNDED and not rebaseline:
+        bv, bk, bounded_rows, bn = run_bounded(pid, known)
+        violations += bv
+        notes += bn
+        for k, f, txt in bk:
+            known_hit.append((k, f))
     if obligations == 0:
         undecided.append("zero obligations generated")
     ev_extra = {}
@@ -602,6 +665,8 @@ def check(pid, tier, seed, rebaseline=False):
         for x in undecided:
             print("UNDECIDED:", x)
         rc = 2
+    if bounded_rows:
+        ev_extra = dict(ev_extra or {}, bounded_standins_for_assumed_callees=bounded_rows)
     write_evidence(pid, tier, seed, wall, obligations, discharged, results, units, trusted, samples, fn_rows,
                    rewrites, canary_rows, violations, known_hit, undecided, notes, ev_extra, undis)
     print("%s: %s  (%d obligations, %d discharged, %d units, %.1fs)" %
